@@ -66,6 +66,11 @@ def generate(rng, tier):
             t = [[r[0], r[2], r[1], r[3]] for r in t]
         elif mode == "mixed":
             t, _ = gm.flip_some(t, rng, 0.5)
+        ktet = len([c for c in cases if c["kind"] == "tet"])
+        if ktet % 4 == 1:
+            # the same element shapes in millimetre ... 10-micrometre units: the geodesic function scales with the mesh
+            v = (np.array(v, dtype=float) * [1e-3, 1e-4, 1e-5][(ktet // 4) % 3]).tolist()
+            fam = fam + "_small"
         cases.append({"kind": "tet", "family": "tet_" + fam + "_" + mode, "flat": True, "v": v, "t": t})
     for c in cases:
         p = np.array(c["v"])
@@ -91,6 +96,9 @@ def generate(rng, tier):
             f = np.sin(p @ a) + 0.5 * (p @ np.array([0.3, -0.2, 0.5]))
         amp = rng.choice([1.0, 1.0, 1.0, 1e-3, 1e-9, 1e-17, 1e-30, 1e8])      # only the direction of the gradient may matter
         fd = rng.choice(["float64", "float64", "float32", "int64"])
+        if "_small" in c["family"]:
+            fd = "float64"      # a constant part of 0.4 with increments of 1e-5 is not resolved in single precision, and rounding
+                                # to integers would leave a constant function (vanishing gradient: outside the property)
         if fd == "float32" and amp < 1e-9:
             amp = 1e-9          # squares of smaller gradients underflow in single precision
         if fd == "int64":
